@@ -194,9 +194,10 @@ class DecisionLatticePredictor:
             A real value to predict in each node in the tree
         context: `MVContext`
             A ManyValued context the tree was constructed
-        eps: `float`
+        eps: `float` or `None`
             A real value used in replacing semiclosed intervals of the tree by closed intervals of decision rules
-            E.g. an interval [a, b) is replaced by an interval [a, b-eps]
+            E.g. an interval (a, b] is replaced by an interval [a+eps, b].
+            If None (the default), the next representable number after ``a`` is used instead of ``a+eps``
 
         Returns
         -------
@@ -228,7 +229,11 @@ class DecisionLatticePredictor:
             is_left_child = node_i in parents_dict_left
             parent_i = parents_dict[node_i]
 
-            descr = (-np.inf, threshold[parent_i]) if is_left_child else (threshold[parent_i] + eps, np.inf)
+            # the right child takes the values strictly greater than the threshold: without an explicit ``eps``
+            # its closed interval starts at the next representable number (an absolute step vanishes next to
+            # big thresholds and leaves a gap between the children on small scales)
+            right_from = np.nextafter(threshold[parent_i], np.inf) if eps is None else threshold[parent_i] + eps
+            descr = (-np.inf, threshold[parent_i]) if is_left_child else (right_from, np.inf)
             premise = {feature[parent_i]: descr}
             direct_premises.append(frozendict(premise))
 
@@ -245,7 +250,7 @@ class DecisionLatticePredictor:
         return direct_premises, dtargets, direct_children, direct_parents, direct_subelements_dict, premises
 
     @classmethod
-    def _parse_dtsklearn_to_direct_drules(cls, dt, context: MVContext, eps=1e-9):
+    def _parse_dtsklearn_to_direct_drules(cls, dt, context: MVContext, eps=None):
         """Parse a decision tree ``dt`` of sklearn package to the set of decision rules
 
         Parameters
@@ -254,9 +259,10 @@ class DecisionLatticePredictor:
             A decision tree to parse
         context: `MVContext`
             A ManyValued context the tree was constructed
-        eps: `float`
+        eps: `float` or `None`
             A real value used in replacing semiclosed intervals of the tree by closed intervals of decision rules
-            E.g. an interval [a, b) is replaced by an interval [a, b-eps]
+            E.g. an interval (a, b] is replaced by an interval [a+eps, b].
+            If None (the default), the next representable number after ``a`` is used instead of ``a+eps``
 
         Returns
         -------
@@ -280,7 +286,7 @@ class DecisionLatticePredictor:
             context, eps)
 
     @classmethod
-    def _parse_xgbooster_to_direct_drules(cls, xgbooster, context: MVContext, eps=1e-9):
+    def _parse_xgbooster_to_direct_drules(cls, xgbooster, context: MVContext, eps=None):
         """
 
         Parameters
@@ -289,9 +295,10 @@ class DecisionLatticePredictor:
             An element of XGBoost ensembles to parse
         context: `MVContext`
             A ManyValued context the tree was constructed
-        eps: `float`
+        eps: `float` or `None`
             A real value used in replacing semiclosed intervals of the tree by closed intervals of decision rules
-            E.g. an interval [a, b) is replaced by an interval [a, b-eps]
+            E.g. an interval (a, b] is replaced by an interval [a+eps, b].
+            If None (the default), the next representable number after ``a`` is used instead of ``a+eps``
 
         Returns
         -------
